@@ -4,7 +4,7 @@
 cd "$(dirname "$0")/.."
 if ! git -C /repo diff --quiet; then echo "/repo has uncommitted changes; refusing"; exit 2; fi
 rm -rf .cache/evidence.keep; cp -r evidence .cache/evidence.keep
-trap 'git -C /repo checkout -- . ; rm -rf evidence; mv .cache/evidence.keep evidence; echo "[harmless] /repo and evidence/ restored"' EXIT
+trap 'pkill -P $$ 2>/dev/null; pkill -f tools/runall.sh 2>/dev/null; git -C /repo checkout -- . ; rm -rf evidence; mv .cache/evidence.keep evidence; echo "[harmless] /repo and evidence/ restored"' EXIT
 for p in "${@:-harmless/*.diff}"; do
   for f in $p; do
     git -C /repo checkout -- .
